@@ -35,8 +35,8 @@ func init() {
 			"exhaustive short histories over a reduced alphabet + seeded random histories checked reply by reply against an executable reference model (S5) and against the actual store content (S1: a SAMLResponse form implies valid credentials or a stored unexpired session, and a currently registered target; S2: the SP accepts it and the identity equals the profile at login; S3: no hash disclosure; S4: exactly one well-formed reply); " +
 			"fault enumeration: for sampled requests every store operation the fault-free run performed is failed in turn with ErrNotFound and with an I/O error (S1-S4 judged); restart insertion at every cut position of sampled histories must leave the observation sequence unchanged (S6). Non-trivial = request served and judged; distinct by (history prefix, action) and by (request, fault position, fault kind).",
 		Assumptions: []string{"histories never register one entity ID under two service names", "under injected faults only safety clauses S1-S4 are judged", "users are seeded with low-cost bcrypt hashes directly in the store (the API's default-cost hashing is exercised on a sample)"},
-		FloorQuick:  5000,
-		FloorThor:   100000,
+		FloorQuick:  3500,
+		FloorThor:   12000,
 		Run:         runC19,
 		TimeoutQ:    15 * time.Minute,
 		LevelText:   "The real server runs over an instrumented store; every reply of exhaustive short and random long histories is compared with a reference model and with the store's actual content, every store operation of sampled requests is failed in turn (two fault kinds), and a restart is inserted at every cut of sampled histories. Held-on-observed.",
